@@ -265,6 +265,12 @@ func genLedgerQuery(repo string) (string, error) {
 		return "", fmt.Errorf("loadHeaderIndexList: %v", err)
 	}
 	fmt.Fprintf(&sb, "/-- loadHeaderIndexList: first height reloaded into the cache: `if currBlockHeight+1 > HEADER_INDEX_MAX_SIZE { start = currBlockHeight - HEADER_INDEX_MAX_SIZE + 1 }` else 0 -/\ndef loadStart (currBlockHeight : Nat) : Nat := if currBlockHeight + 1 > headerIndexMaxSize then %s else 0\n\n", l2)
+	// loadHeaderWithTx — the loop that reads the transaction hashes of a stored block runs exactly the decoded count
+	ok, why, err := txHashLoopFact(repo, dir)
+	if err != nil {
+		return "", err
+	}
+	fmt.Fprintf(&sb, "/-- block_store.go:loadHeaderWithTx (and same-package helpers): the loop whose body reads one transaction hash (`NextHash`) is bounded by the\nvariable that holds the count decoded with `NextUint32`, and that variable is assigned nowhere else (no clamp / min between decoding and the\nloop; the capacity hint of `make` may be anything).  %s -/\ndef txHashLoopRunsDecodedCount : Bool := %v\n\n", why, ok)
 	sb.WriteString("end OntVerif.Gen.LedgerQuery\n")
 	return sb.String(), nil
 }
@@ -408,4 +414,119 @@ func deparen(e ast.Expr) ast.Expr {
 		return &ast.BinaryExpr{X: deparen(x.X), Op: x.Op, Y: deparen(x.Y)}
 	}
 	return e
+}
+
+// txHashLoopFact: role-based — "the loop that calls NextHash" and "the variable bound to the result of NextUint32".
+func txHashLoopFact(repo, dir string) (bool, string, error) {
+	fset, funcs, err := pkgFuncs(repo, strings.TrimSuffix(dir, "/"))
+	if err != nil {
+		return false, "", err
+	}
+	root := funcs["BlockStore.loadHeaderWithTx"]
+	if root == nil {
+		root = funcs["loadHeaderWithTx"]
+	}
+	if root == nil {
+		return false, "", fmt.Errorf("block_store.go: loadHeaderWithTx not found")
+	}
+	type site struct {
+		loop *ast.ForStmt
+		in   *ast.FuncDecl
+	}
+	var sites []site
+	rangeLoops := 0
+	hasCall := func(body *ast.BlockStmt, sel string) bool {
+		found := false
+		ast.Inspect(body, func(n ast.Node) bool {
+			if ce, ok := n.(*ast.CallExpr); ok {
+				if se, ok := ce.Fun.(*ast.SelectorExpr); ok && se.Sel.Name == sel {
+					found = true
+				}
+			}
+			return true
+		})
+		return found
+	}
+	walkDeep(funcs, root, 2, func(n ast.Node, in *ast.FuncDecl) bool {
+		switch x := n.(type) {
+		case *ast.ForStmt:
+			if hasCall(x.Body, "NextHash") {
+				sites = append(sites, site{x, in})
+			}
+		case *ast.RangeStmt:
+			if hasCall(x.Body, "NextHash") {
+				rangeLoops++
+			}
+		}
+		return true
+	})
+	if len(sites) != 1 || rangeLoops != 0 {
+		return false, "", fmt.Errorf("loadHeaderWithTx: expected exactly one counting `for` loop that reads transaction hashes with NextHash, found %d (and %d range loops)", len(sites), rangeLoops)
+	}
+	loop, in := sites[0].loop, sites[0].in
+	defs := singleDefs(in)
+	cond, ok := stripParens(loop.Cond).(*ast.BinaryExpr)
+	init, ok2 := loop.Init.(*ast.AssignStmt)
+	post, ok3 := loop.Post.(*ast.IncDecStmt)
+	if !ok || !ok2 || !ok3 || len(init.Lhs) != 1 || len(init.Rhs) != 1 || post.Tok != token.INC {
+		return false, "", fmt.Errorf("loadHeaderWithTx: the hash-reading loop is not `for i := 0; i < n; i++`")
+	}
+	iv := flat(fset, init.Lhs[0])
+	zero := flat(fset, stripConv(init.Rhs[0]))
+	var bound ast.Expr
+	switch {
+	case (cond.Op == token.LSS || cond.Op == token.NEQ) && flat(fset, cond.X) == iv:
+		bound = cond.Y
+	case (cond.Op == token.GTR || cond.Op == token.NEQ) && flat(fset, cond.Y) == iv:
+		bound = cond.X
+	}
+	if bound == nil || zero != "0" || flat(fset, post.X) != iv {
+		return false, "", fmt.Errorf("loadHeaderWithTx: the hash-reading loop does not count from 0 up to a bound: %s", flat(fset, loop.Cond))
+	}
+	bid, ok := stripConv(stripParens(inlineLocals(bound, defs))).(*ast.Ident)
+	if !ok {
+		return false, "the loop bound is not a plain variable: " + flat(fset, bound), nil
+	}
+	// the bound variable: defined by `v, … := <x>.NextUint32()` and never assigned again in that function
+	nDef, nOther := 0, 0
+	ast.Inspect(in.Body, func(n ast.Node) bool {
+		switch x := n.(type) {
+		case *ast.AssignStmt:
+			for i, l := range x.Lhs {
+				id, ok := l.(*ast.Ident)
+				if !ok || id.Name != bid.Name {
+					continue
+				}
+				fromDecode := false
+				if len(x.Rhs) == 1 && i == 0 {
+					if ce, ok := x.Rhs[0].(*ast.CallExpr); ok {
+						if se, ok := ce.Fun.(*ast.SelectorExpr); ok && se.Sel.Name == "NextUint32" {
+							fromDecode = true
+						}
+					}
+				}
+				if fromDecode {
+					nDef++
+				} else {
+					nOther++
+				}
+			}
+		case *ast.IncDecStmt:
+			if id, ok := x.X.(*ast.Ident); ok && id.Name == bid.Name {
+				nOther++
+			}
+		case *ast.UnaryExpr:
+			if id, ok := x.X.(*ast.Ident); ok && x.Op == token.AND && id.Name == bid.Name {
+				nOther++
+			}
+		}
+		return true
+	})
+	if nDef != 1 {
+		return false, fmt.Sprintf("the loop bound %s is not the value decoded by NextUint32", bid.Name), nil
+	}
+	if nOther != 0 {
+		return false, fmt.Sprintf("the decoded count %s is modified (%d other assignment(s)) before it bounds the loop", bid.Name, nOther), nil
+	}
+	return true, "Found: the bound is the decoded count, unmodified.", nil
 }
